@@ -938,6 +938,26 @@ func (c *SpecCtx) evalCall(e *ECall) Val {
 		sv := c.eval(e.Args[0])
 		c.enc().trusted["library contract: strings.ToLower: deterministic function of its arguments, otherwise unconstrained"] = true
 		return Val{T: enc.uf("ext.strings.ToLower.0", []string{"Str"}, "Str", sv.T), Typ: types.Typ[types.String]}
+	case "callres":
+		// callres("F", k): result k of the function's single call of F (postconditions of small wrappers:
+		// "the result is computed from what F returned")
+		if len(e.Args) != 2 {
+			c.fail("callres(name, k)")
+		}
+		nlit, okn := e.Args[0].(*EStr)
+		kv := c.eval(e.Args[1])
+		if !okn || !kv.isConst() {
+			c.fail("callres: name and result index must be constants")
+		}
+		k64, _ := constant.Int64Val(kv.Const)
+		rs := c.vc.callRes[nlit.Val]
+		if c.vc.callCount[nlit.Val] != 1 {
+			c.fail("callres(%q, ...): the function must call %s exactly once on the analysed paths (found %d calls)", nlit.Val, nlit.Val, c.vc.callCount[nlit.Val])
+		}
+		if int(k64) >= len(rs) {
+			c.fail("callres(%q, %d): no such result", nlit.Val, k64)
+		}
+		return rs[k64]
 	case "trimprefix":
 		// strings.TrimPrefix, same model as the library call: s[len(p):] if HasPrefix(s, p) else s
 		sv := c.eval(e.Args[0])
